@@ -106,7 +106,16 @@ def run(c):
                ("threefish", ["tf"], "TraceTF", "stateless", {"MODE": "enc"}),
                ("threefish-inverse", ["tf"], "TraceTF", "stateless", {"MODE": "inv"})]
     fcfgs = [("std-rel", 0), ("nosimd-rel", 0), ("nostd-sse2", 0), ("nounroll-rel", 0)] + ([("nostd-avx2", 0), ("nosimd-dbg", 0), ("nostd-aes", 0)] if c.thorough else [])
-    total, _ = c03.cross_validate(c, fcfgs, drivers, label="C20")
+    build_violations = len(c.violations) if hasattr(c, "violations") else 0
+    try:
+        total, _ = c03.cross_validate(c, fcfgs, drivers, label="C20")
+    except vlib.ToolError as ex:
+        # a feature configuration that does not build also breaks the harness builds that use it: that is the violation
+        # already recorded above, not a tool error
+        if not build_violations or "harness build failed" not in str(ex):
+            raise
+        total = 0
+        c.notes.append("functional part skipped: %s (consequence of the build violations reported)" % str(ex).splitlines()[0])
     c.cov["functional_events_compared"] = total
     c.cov["functional_configurations"] = ["%s/force=%d" % x for x in fcfgs]
     c.cov["rule"] = ("Features.tla + a module generated from `cargo metadata` describe each crate's feature graph; TLC enumerates every request (any subset of the declared features, default on/off), "
